@@ -149,7 +149,7 @@ CLAIMS['C04'] = {
     'text': ('Theorems stats_exact / stats_at_tree_exact / stats_at_huge_exact / huge_free_exact / huge_entirely_free_iff / fast_counters_exact: under the '
              'lower invariant stats() returns exactly the number of free frames, entirely free huge frames and entirely free trees of the allocation '
              'state, the per-huge-frame and per-tree queries are exact and read-only; in every reachable state (upper invariant) the fast counters of a '
-             'tree (entry + reservations on it) equal its free frames unless hidden by Offline, and never exceed them (fast = exact - offline, tree by tree).'
+             'tree (entry + reservations on it) plus the frames hidden by Offline (H i) equal its free frames EXACTLY (fast = exact - offline, tree by tree).'
              ' Theorem conc_quiescent_counters_exact: at the quiescent end of EVERY interleaving of any number of threads using the lower allocator every '
              'huge-entry counter equals the number of free frames of its bitfield again (and is never above it in between).'
              + PART + 'that the programs tree_stats()/validate() add these counters up without panic, stats_at(order 0)/is_free, and the '
@@ -240,10 +240,14 @@ CLAIMS['C15'] = {
              'online_nonempty_skips / offline_blocks_steal / offline_blocks_reserve / offline_blocks_sync: change_tree (by id and by search), in every reachable '
              'state, never panics, touches only one unreserved matching tree, keeps allocation state and invariant, a refused change changes nothing; Offline '
              'leaves counter 0 (frames hidden from the fast count); a successful Online restores the counter to exactly the free frames of the tree; a tree '
-             'with counter 0 is refused by steal, reserve and sync and named by no slot.' + PART + 'the composed statement "no allocation returns a frame of an '
-             'offline tree for every history" is carried by the change-heavy differential with the offline oracle.'),
+             'with counter 0 is refused by steal, reserve and sync and named by no slot. Theorems offline_never_allocated / allocation_paid_by_tree: in EVERY '
+             'state satisfying the upper invariant (every state of every sequential history of a constructed allocator) a tree with counter 0 that is not reserved '
+             '- a tree taken offline and not yet online again - is never allocated from: no get, with or without target, through any slot, on any path, returns '
+             'one of its frames. This follows from exact accounting in the invariant (tree counter + reservations + hidden frames H i = free frames of the tree, '
+             'with the same hidden amounts before and after an allocation): the counters of the tree of a returned block covered the block before the call. '
+             'Offline moves the counter into H i, Online sets H i = 0, nothing else changes H; the fast free count excludes exactly H (C04).'),
     'note': TB + ' Upper-level theorems hold for configurations satisfying CfgOk (class ids < 8, ordered policy, tree size < 2^19: every configuration of the repository; derived from elementary checks by CfgOk.of_checks); they depend on the C23 theorem (bv_decide axioms) through the lower search.' + ' Model deviation recorded in DESIGN.md: Online reads the lower counters before the update closure.',
-    'technique': 'Lean 4 proof of change_tree against the upper invariant + theorems about the tree steps + change-heavy sequential differential',
+    'technique': 'Lean 4 proof of change_tree against the upper invariant with exact accounting of hidden frames (from which "never allocated from" follows for every history) + theorems about the tree steps + change-heavy sequential differential',
 }
 CLAIMS['C21'] = {
     'text': ('Theorems solo_terminates / get_solo_terminates / put_solo_terminates / drain_solo_terminates / solo_step_bound_upd: from every '
